@@ -6,4 +6,10 @@ UNITS = {
     "GenLoad": dict(
         props=["C09"],
         dumper="dump_c09.py", args=[]),
+    # The control flow of flood_fill_aplx / load_application / SpiNNakerLoadingError that Model/Load.v mirrors by
+    # hand, compared statement by statement (integer expressions as holes) with the shape the model was written
+    # against -- fail closed -- by tools/dump_c09s.py; emits the literals the model takes from it.
+    "GenLoadShape": dict(
+        props=["C09"],
+        dumper="dump_c09s.py", args=[]),
 }
